@@ -81,3 +81,7 @@ Definition verdict (c : ccase) : nat :=
 Definition clauses (c : ccase) : list bool :=
   [p_head c; p_under_tc c; p_no_new_runtime c; p_in_place c; p_bound c; p_needed c;
    model_ok c; libcst_ok c; kf_shadow (c_stub c) (c_src c); kf_apply_extra (c_stub c) (c_src c) (c_applied c)].
+
+(* the clause vector as one number (leading 1, then one bit per clause, first clause = most significant) *)
+Definition clause_code (c : ccase) : nat :=
+  fold_left (fun acc (b : bool) => 2 * acc + (if b then 1 else 0)) (clauses c) 1.
